@@ -14,6 +14,9 @@ Inductive err :=
 | NotImplementedErr
 | UsesRemainErr    (* gtirb_rewriting SymbolUsesRemainingError *)
 | AmbiguousErr     (* gtirb_rewriting AmbiguousIRError *)
+| MultiDefErr      (* assembler MultipleDefinitionsError *)
+| UndefErr         (* assembler UndefSymbolError *)
+| UnsupportedErr   (* assembler UnsupportedAssemblyError *)
 | OutOfFuel.      (* model artefact: never produced under the theorems' hypotheses *)
 
 Inductive result (A : Type) :=
